@@ -104,7 +104,7 @@ Definition scan_entry (n p : Z) (e : entry) : option entry :=
     if 0 <? ecircle e then
       Some (mkEntry (ekey e) (evalue e) (epos e) (ecircle e - 1) (ediff e))
     else if 0 <? ediff e then
-      Some (mkEntry (ekey e) (evalue e) ((p + ediff e) mod n) 0 0)
+      Some (mkEntry (ekey e) (evalue e) ((p + ediff e) mod n) (ecircle e) 0)
     else None
   else Some e.
 
